@@ -218,6 +218,27 @@ func (r *rangeEnv) rng(v ssa.Value, at *ssa.BasicBlock) (lo, hi *big.Int) {
 		if isIntType(a.X.Type()) {
 			lo, hi = r.rng(a.X, at)
 		}
+	case *ssa.Extract:
+		if call, ok := a.Tuple.(*ssa.Call); ok {
+			if cal := call.Call.StaticCallee(); cal != nil && cal.Blocks != nil && cal.Pkg == r.fn.Pkg && cal != r.fn && r.depth < 3 {
+				var l, h *big.Int
+				sub := newRangeEnv(cal)
+				sub.depth = r.depth + 1
+				for _, cb := range cal.Blocks {
+					if ret, ok := cb.Instrs[len(cb.Instrs)-1].(*ssa.Return); ok && a.Index < len(ret.Results) {
+						rl, rh := sub.rng(ret.Results[a.Index], cb)
+						if l == nil {
+							l, h = rl, rh
+						} else {
+							l, h = minBig(l, rl), maxBig(h, rh)
+						}
+					}
+				}
+				if l != nil {
+					lo, hi = maxBig(tlo, l), minBig(thi, h)
+				}
+			}
+		}
 	case *ssa.Call:
 		if cal := a.Call.StaticCallee(); cal != nil && cal.Blocks != nil && cal.Pkg == r.fn.Pkg && cal != r.fn && r.depth < 2 {
 			// callee summary: union of the ranges of its return expressions (no argument information)
